@@ -72,8 +72,12 @@ struct Prepared {
     out: String,
 }
 
-fn prepare(c: &AstCase, obs: &mut Obs, use_kf1: bool) -> Result<Option<Prepared>, Verdict> {
+fn prepare(c: &AstCase, obs: &mut Obs, use_kf1: bool, which: Which) -> Result<Option<Prepared>, Verdict> {
     let r = astgen::render(&c.doc, &c.spell);
+    if let Err(why) = astgen::in_domain(&r, &opts(which).domain()) {
+        obs.excluded(why);
+        return Ok(None);
+    }
     let cfg = c.cfg.to_cfg(&c.spell);
     let tr = astgen::truth(&r, &c.cfg);
     if tr.undefined {
@@ -103,7 +107,7 @@ fn final_newline(c: &AstCase) -> bool {
 // ---- C11 -------------------------------------------------------------------------------------------------------
 
 pub fn oracle_c11(c: &AstCase, obs: &mut Obs, kf1: bool, counted: bool) -> Verdict {
-    let p = match prepare(c, obs, kf1) {
+    let p = match prepare(c, obs, kf1, Which::C11) {
         Ok(Some(p)) => p,
         Ok(None) => return Verdict::Pass,
         Err(v) => return v,
@@ -166,7 +170,7 @@ pub fn oracle_c11(c: &AstCase, obs: &mut Obs, kf1: bool, counted: bool) -> Verdi
 // ---- C12 -------------------------------------------------------------------------------------------------------
 
 pub fn oracle_c12(c: &AstCase, obs: &mut Obs, kf1: bool, counted: bool) -> Verdict {
-    let p = match prepare(c, obs, kf1) {
+    let p = match prepare(c, obs, kf1, Which::C12) {
         Ok(Some(p)) => p,
         Ok(None) => return Verdict::Pass,
         Err(v) => return v,
@@ -230,7 +234,7 @@ pub fn oracle_c12(c: &AstCase, obs: &mut Obs, kf1: bool, counted: bool) -> Verdi
 // ---- C13 -------------------------------------------------------------------------------------------------------
 
 pub fn oracle_c13(c: &AstCase, obs: &mut Obs, kf1: bool, counted: bool) -> Verdict {
-    let p = match prepare(c, obs, kf1) {
+    let p = match prepare(c, obs, kf1, Which::C13) {
         Ok(Some(p)) => p,
         Ok(None) => return Verdict::Pass,
         Err(v) => return v,
@@ -562,6 +566,7 @@ pub fn check(ctx: &mut Ctx, id: &'static str) {
                 ctx.require_class(c);
             }
             ctx.random("ast-documents", 400, 400_000, 4_000_000, |t| gen(t, which), |c, obs| oracle_c11(c, obs, kf1, false));
+            ctx.reshrink::<AstCase, _, _>("ast-documents", |c, obs| oracle_c11(c, obs, kf1, false), crate::props::clean::shrink_ast);
         }
         Which::C12 => {
             ctx.rule = "cases = block-style AST documents with unwrap-block elements over indentation units {2 spaces, 4 spaces, tab}, tag indent 0..2 units (+ jitter), inner lines indented below / at / above the first inner line, multi-byte text, default-strategy children, unwrap nesting depth <= 3, block on line 1 / after an empty first line / later. Oracle: every non-blank output line equals the by-construction expectation: a surviving inner line with l leading blanks loses clamp(l - t, 0, max(0, f - t)) blanks at byte offset t (t = tag indent, f = first inner line's indent), for every enclosing unwrapped element. Grid: t x f x l x l2 x position x unit. Non-trivial = d > 0 and some inner line with l < f or l <= t.".into();
@@ -579,6 +584,7 @@ pub fn check(ctx: &mut Ctx, id: &'static str) {
                 ctx.require_class(c);
             }
             ctx.random("ast-documents", 400, 800_000, 6_000_000, |t| gen(t, which), |c, obs| oracle_c12(c, obs, kf1, false));
+            ctx.reshrink::<AstCase, _, _>("ast-documents", |c, obs| oracle_c12(c, obs, kf1, false), crate::props::clean::shrink_ast);
         }
         Which::C13 => {
             ctx.rule = "cases = block-style AST documents, default strategy only: blank and whitespace-only lines in any number around blocks, nesting in pending / skip / unregistered parents, multi-byte lines, with / without final newline, 3 indentation units. Oracle: (1) non-blank output lines == surviving non-blank input lines byte for byte in order; (2) for every removed block that is a single element, has surviving non-blank lines before and after and b / a blank lines directly around it: exactly a+b-[a>0 and b>0] blank lines remain between its neighbours. Exhaustive grid (b,a) in 0..4 x 4x4 blank styles x indent x content x pending parent x position x final newline. Non-trivial = a removed block with a+b > 0 or nested in a pending parent.".into();
@@ -596,6 +602,7 @@ pub fn check(ctx: &mut Ctx, id: &'static str) {
                 ctx.require_class(c);
             }
             ctx.random("ast-documents", 400, 400_000, 4_000_000, |t| gen(t, which), |c, obs| oracle_c13(c, obs, kf1, false));
+            ctx.reshrink::<AstCase, _, _>("ast-documents", |c, obs| oracle_c13(c, obs, kf1, false), crate::props::clean::shrink_ast);
         }
     }
 }
